@@ -416,6 +416,8 @@ def batches(rng, tier):
         for t in ([c], [c, 97], [97, c, 10, c]):
             ops.append(f"hist w {txt(t)} - g,p,g,p,g,p,s1,g,p,s0,p")
             ops.append(f"perr w {txt(t)} - g lit 97")
+            ops.append(f"gp w {txt(t)} - - rep.lit:{c} rep.alt.seq.lit:10.lit:{c}.seq.lit:97.not.lit:10")
+            ops.append(f"gp w {txt(t + [10, c, c])} - g,p alt.str:{c},10.str:{c} seq.opt.lit:10.rep.cset:{c},97")
     for c in [0x8A, 0xFF, 0x0D, 0x0, 0x0B, 0x0C, 0x7F, 0x80]:
         for t in ([c], [c, 97], [97, c, 10, c]):
             ops.append(f"hist c {txt(t)} - g,p,g,p,g,p,s1,g,p,s0,p")
@@ -423,7 +425,7 @@ def batches(rng, tier):
     # 3b'. counters beyond one byte: a line of 600 characters, 300 lines, and both after rewinds
     long_a = [97] * 600
     many_nl = [10] * 300
-    mixed = ([97] * 299 + [10]) * 2 + [97] * 10
+    mixed = [97] * 299 + [10] + [97] * 400 + [10] + [97] * 10
     for kind in ("c", "w"):
         for t in (long_a, many_nl, mixed):
             n = len(t)
@@ -437,7 +439,7 @@ def batches(rng, tier):
     for kind in ("c", "w"):
         ops = gx_ops(kind, core + wide, SKIPPERS, range(0, 6 if thorough else 4))
         ops += gx_ops(kind, core, SKIPPERS_X + [SKIPPER_SPACE], range(0, 5 if thorough else 4))
-        ops += gx_ops(kind, core, SKIPPERS[:2], [6] if thorough and kind == "c" else [])
+        ops += gx_ops(kind, core, SKIPPERS[:2], [6] if thorough else [])
         if kind == "c" or thorough:
             ops += gx_ops(kind, core, SKIPPERS, [4] if not thorough else [])
             ops += gx_ops(kind, core[:60] if not thorough else core, SKIPPERS[:2], [5] if not thorough else [])
@@ -455,9 +457,13 @@ def batches(rng, tier):
                 for t in all_texts(L):
                     for n in range(0, L + 2):
                         ops.append(f"ge {kind} p {txt(t)} - {n} rep.lit:32 {g}")
-                        ops.append(f"ge {kind} g {txt(t)} - {n} eps {g}")
+                        ops.append(f"ge {kind} g {txt(t)} - {n} rep.cset:32,9 {g}")
                         ops.append(f"ge {kind} e {txt(t)} - {n} eps {g}")
-                    ops.append(f"ge {kind} p {txt(t)} {min(1, L)} 0 eps {g}")
+                    # failing buffers: every budget, with and without a direct read before
+                    for fa in range(0, L + 1):
+                        for n in (0, 1):
+                            ops.append(f"ge {kind} p {txt(t)} {fa} {n} eps {g}")
+                            ops.append(f"ge {kind} g {txt(t)} {fa} {n} rep.cset:32,9 {g}")
         yield Batch(f"entry-{kind}", ops, exhaustive=True,
                     note="phrase_parse_stream / parse_stream / grammar_parse_stream on small texts after n direct reads")
     # 3d. position / location values: == on all ordered pairs (same object included), <<
